@@ -28,7 +28,15 @@ def pdk_module(name):
 
 
 def tables(name):
-    """{class: {key: ExternalModule}} of a PDK's device tables (read-only introspection)."""
+    """{class: {key: ExternalModule}} of a PDK's device tables (read-only introspection), or {} when
+    the PDK package no longer has tables of these names (the check then leaves that PDK alone)."""
+    try:
+        return _tables(name)
+    except (AttributeError, KeyError, TypeError):
+        return {}
+
+
+def _tables(name):
     m = pdk_module(name)
     if name in ("sky130", "gf180"):
         return {"mos": dict(m.xtors), "res": dict(m.ress), "cap": dict(m.caps), "diode": dict(m.diodes), "bjt": dict(m.bjts)}
@@ -62,6 +70,12 @@ def generate(seed, mode="c15", opts=None):
     ch = Choices(seed)
     target = ch.pick(PDKS, "pdk")
     tb = tables(target)
+    if not tb.get("mos"):
+        # this PDK's tables are not where they were: take the next one that can be read
+        target = next((p_ for p_ in PDKS if tables(p_).get("mos")), None)
+        if target is None:
+            raise RuntimeError("no PDK device table can be read")
+        tb = tables(target)
     n_mods = ch.rint(1, 3, "nmods")
     mods = []
     for mid in range(n_mods):
